@@ -26,8 +26,12 @@ VARIABLES l,          \* next event
           startedT, registeredT,   \* spawned threads that run / that are on the thread list
           asked,      \* asked[t]: threads with an outstanding stop request on t
           snap,       \* snap[th]: the threads that were on the list when th began its current round of stop requests
+          served,     \* served[th]: in th's current stop-the-world operation, req = the threads th asked to stop,
+                      \*             got = the threads whose stack th scanned / whose global table th rewrote
+                      \*             (th and its targets are threads of ONE engine: the macro expander's engine, which runs
+                      \*             on the same OS thread, stops only itself)
           bad         \* ghost verdicts: set of <<tag, event index>>
-vars == <<l, ctx, paused, st, scanning, envw, pendingIrq, exited, startedT, registeredT, asked, snap, bad>>
+vars == <<l, ctx, paused, st, scanning, envw, pendingIrq, exited, startedT, registeredT, asked, snap, served, bad>>
 
 Init == /\ l = 1
         /\ ctx = [t \in Thread |-> FALSE] /\ paused = [t \in Thread |-> FALSE]
@@ -35,6 +39,7 @@ Init == /\ l = 1
         /\ scanning = [t \in Thread |-> None] /\ envw = [t \in Thread |-> None]
         /\ pendingIrq = [t \in Thread |-> FALSE] /\ exited = {} /\ bad = {}
         /\ startedT = {} /\ registeredT = {} /\ asked = [t \in Thread |-> {}] /\ snap = [t \in Thread |-> {}]
+        /\ served = [t \in Thread |-> [req |-> {}, got |-> {}]]
 
 E == Events[l]
 Is(names) == l <= N /\ E.ev \in names
@@ -57,31 +62,33 @@ NotAskedTag == IF E.tgt \in snap[E.th] THEN "C15-access-to-thread-never-asked-to
 
 Publish == /\ Is({"SP_PUBLISH", "POLL_PUBLISH"}) /\ Adv
            /\ ctx' = [ctx EXCEPT ![E.th] = TRUE]
-           /\ UNCHANGED <<paused, st, scanning, envw, pendingIrq, exited, bad, startedT, registeredT, asked, snap>>
+           /\ UNCHANGED <<paused, st, scanning, envw, pendingIrq, exited, bad, startedT, registeredT, asked, snap, served>>
 \* retracting while another thread reads or writes this thread's state is the C15 breach
 Retract == /\ Is({"SP_RETRACT", "POLL_RETRACT"}) /\ Adv
            /\ ctx' = [ctx EXCEPT ![E.th] = FALSE]
            /\ IF scanning[E.th] # None \/ envw[E.th] # None THEN Flag("C15a-retract-while-scanned") ELSE UNCHANGED bad
-           /\ UNCHANGED <<paused, st, scanning, envw, pendingIrq, exited, startedT, registeredT, asked, snap>>
+           /\ UNCHANGED <<paused, st, scanning, envw, pendingIrq, exited, startedT, registeredT, asked, snap, served>>
 Dispatch == /\ Is({"DISPATCH"}) /\ Adv
             /\ IF scanning[E.th] # None \/ envw[E.th] # None THEN Flag("C15a-runs-while-scanned") ELSE UNCHANGED bad
-            /\ UNCHANGED <<ctx, paused, st, scanning, envw, pendingIrq, exited, startedT, registeredT, asked, snap>>
+            /\ UNCHANGED <<ctx, paused, st, scanning, envw, pendingIrq, exited, startedT, registeredT, asked, snap, served>>
 ScanBegin == /\ Is({"SCAN_BEGIN"}) /\ Adv
              /\ scanning' = [scanning EXCEPT ![E.tgt] = E.th]
+             /\ served' = [served EXCEPT ![E.th].got = @ \cup {E.tgt}]
              /\ bad' = bad \cup (IF ~ctx[E.tgt] THEN {<<"C15a-scan-of-unpublished-thread", l>>} ELSE {})
                             \cup (IF NotAsked THEN {<<NotAskedTag, l>>} ELSE {})
              /\ UNCHANGED <<ctx, paused, st, envw, pendingIrq, exited, startedT, registeredT, asked, snap>>
 ScanEnd == /\ Is({"SCAN_END"}) /\ Adv
            /\ scanning' = [scanning EXCEPT ![E.tgt] = None]
-           /\ UNCHANGED <<ctx, paused, st, envw, pendingIrq, exited, bad, startedT, registeredT, asked, snap>>
+           /\ UNCHANGED <<ctx, paused, st, envw, pendingIrq, exited, bad, startedT, registeredT, asked, snap, served>>
 EnvBegin == /\ Is({"ENV_WRITE_BEGIN"}) /\ Adv
             /\ envw' = [envw EXCEPT ![E.tgt] = E.th]
+            /\ served' = [served EXCEPT ![E.th].got = @ \cup {E.tgt}]
             /\ bad' = bad \cup (IF ~ctx[E.tgt] THEN {<<"C15a-write-to-unpublished-thread", l>>} ELSE {})
                            \cup (IF NotAsked THEN {<<NotAskedTag, l>>} ELSE {})
             /\ UNCHANGED <<ctx, paused, st, scanning, pendingIrq, exited, startedT, registeredT, asked, snap>>
 EnvEnd == /\ Is({"ENV_WRITE_END"}) /\ Adv
           /\ envw' = [envw EXCEPT ![E.tgt] = None]
-          /\ UNCHANGED <<ctx, paused, st, scanning, pendingIrq, exited, bad, startedT, registeredT, asked, snap>>
+          /\ UNCHANGED <<ctx, paused, st, scanning, pendingIrq, exited, bad, startedT, registeredT, asked, snap, served>>
 \* ThreadStateController: pause_for_safepoint / resume / interrupt / suspend
 Pause == /\ Is({"CTRL_PAUSE"}) /\ Adv
          /\ paused' = [paused EXCEPT ![E.tgt] = TRUE] /\ st' = [st EXCEPT ![E.tgt] = "PausedAtSafepoint"]
@@ -90,47 +97,56 @@ Pause == /\ Is({"CTRL_PAUSE"}) /\ Adv
          /\ asked' = [asked EXCEPT ![E.tgt] = @ \cup {E.th}]
          /\ snap' = IF \A u \in Thread : E.th \notin asked[u]          \* first request of a new round
                      THEN [snap EXCEPT ![E.th] = registeredT \cup {EngineThread}] ELSE snap
+         /\ served' = [served EXCEPT ![E.th].req = @ \cup {E.tgt}]
          /\ UNCHANGED <<ctx, scanning, envw, exited, startedT, registeredT>>
 Resume == /\ Is({"CTRL_RESUME"}) /\ Adv
           /\ paused' = [paused EXCEPT ![E.tgt] = FALSE] /\ st' = [st EXCEPT ![E.tgt] = "Running"]
           /\ IF pendingIrq[E.tgt] THEN Flag("C17-interrupt-overwritten") ELSE UNCHANGED bad
           /\ pendingIrq' = [pendingIrq EXCEPT ![E.tgt] = FALSE]
           /\ asked' = [asked EXCEPT ![E.tgt] = @ \ {E.th}]
-          /\ UNCHANGED <<ctx, scanning, envw, exited, startedT, registeredT, snap>>
+          /\ UNCHANGED <<ctx, scanning, envw, exited, startedT, registeredT, snap, served>>
 Interrupt == /\ Is({"CTRL_INTERRUPT"}) /\ Adv
              /\ paused' = [paused EXCEPT ![E.tgt] = TRUE] /\ st' = [st EXCEPT ![E.tgt] = "Interrupted"]
              /\ pendingIrq' = [pendingIrq EXCEPT ![E.tgt] = TRUE]
-             /\ UNCHANGED <<ctx, scanning, envw, exited, bad, startedT, registeredT, asked, snap>>
+             /\ UNCHANGED <<ctx, scanning, envw, exited, bad, startedT, registeredT, asked, snap, served>>
 Suspend == /\ Is({"CTRL_SUSPEND"}) /\ Adv
            /\ paused' = [paused EXCEPT ![E.tgt] = TRUE] /\ st' = [st EXCEPT ![E.tgt] = "Suspended"]
-           /\ UNCHANGED <<ctx, scanning, envw, pendingIrq, exited, bad, startedT, registeredT, asked, snap>>
+           /\ UNCHANGED <<ctx, scanning, envw, pendingIrq, exited, bad, startedT, registeredT, asked, snap, served>>
 Raised == /\ Is({"RAISED"}) /\ Adv
           /\ pendingIrq' = [pendingIrq EXCEPT ![E.th] = FALSE]
-          /\ UNCHANGED <<ctx, paused, st, scanning, envw, exited, bad, startedT, registeredT, asked, snap>>
+          /\ UNCHANGED <<ctx, paused, st, scanning, envw, exited, bad, startedT, registeredT, asked, snap, served>>
 Exit == /\ Is({"THREAD_EXIT"}) /\ Adv
         /\ exited' = exited \cup {E.th} /\ ctx' = [ctx EXCEPT ![E.th] = FALSE]
-        /\ UNCHANGED <<paused, st, scanning, envw, pendingIrq, bad, startedT, registeredT, asked, snap>>
+        /\ UNCHANGED <<paused, st, scanning, envw, pendingIrq, bad, startedT, registeredT, asked, snap, served>>
 \* spawn-native-thread: the new thread starts running (THREAD_START, logged by itself) and is pushed
 \* on the thread list by its parent (REGISTERED) - in the code in that order
 Started == /\ Is({"THREAD_START"}) /\ Adv
            /\ startedT' = startedT \cup {E.th}
-           /\ UNCHANGED <<ctx, paused, st, scanning, envw, pendingIrq, exited, registeredT, asked, snap, bad>>
+           /\ UNCHANGED <<ctx, paused, st, scanning, envw, pendingIrq, exited, registeredT, asked, snap, served, bad>>
 Registered == /\ Is({"REGISTERED"}) /\ Adv
               /\ registeredT' = registeredT \cup {E.tgt}
-              /\ UNCHANGED <<ctx, paused, st, scanning, envw, pendingIrq, exited, startedT, asked, snap, bad>>
+              /\ UNCHANGED <<ctx, paused, st, scanning, envw, pendingIrq, exited, startedT, asked, snap, served, bad>>
 \* end of a stop-the-world operation: every running spawned thread must have been on the list
 \* (otherwise it was neither stopped nor scanned nor given the new global table)
+\* ... and every thread the operation asked to stop (and that has not exited) must have been
+\* served by it: scanned by a collection, given the new global table by a define / set!.  A thread that the
+\* stopper gave up waiting for keeps running on its old table / with unscanned roots
+StwBegin == /\ Is({"STW_BEGIN"}) /\ Adv
+            /\ served' = [served EXCEPT ![E.th] = [req |-> {}, got |-> {}]]
+            /\ UNCHANGED <<ctx, paused, st, scanning, envw, pendingIrq, exited, bad, startedT, registeredT, asked, snap>>
 StwEnd == /\ Is({"STW_END"}) /\ Adv
-          /\ IF \E t \in startedT : t \notin registeredT /\ t \notin exited /\ t # E.th
-               THEN Flag("C15-unregistered-thread-runs-during-stop") ELSE UNCHANGED bad
-          /\ UNCHANGED <<ctx, paused, st, scanning, envw, pendingIrq, exited, startedT, registeredT, asked, snap>>
+          /\ bad' = bad \cup (IF \E t \in startedT : t \notin registeredT /\ t \notin exited /\ t # E.th
+                                THEN {<<"C15-unregistered-thread-runs-during-stop", l>>} ELSE {})
+                         \cup (IF \E t \in served[E.th].req : t # E.th /\ t \notin exited /\ t \notin served[E.th].got
+                                THEN {<<"C15-thread-skipped-by-stop-the-world-operation", l>>} ELSE {})
+          /\ UNCHANGED <<ctx, paused, st, scanning, envw, pendingIrq, exited, startedT, registeredT, asked, snap, served>>
 \* events that carry no state of the projection (parks, loop reads, brackets)
-Other == /\ Is({"SP_PARK", "POLL_PARK", "SP_READ_PAUSED", "POLL_LOOP_READ", "STW_BEGIN",
+Other == /\ Is({"SP_PARK", "POLL_PARK", "SP_READ_PAUSED", "POLL_LOOP_READ",
                "SPAWNED", "REGISTERING", "UNPARK", "HEAP_LOCKED", "ENUM_WAIT"}) /\ Adv
-         /\ UNCHANGED <<ctx, paused, st, scanning, envw, pendingIrq, exited, bad, startedT, registeredT, asked, snap>>
+         /\ UNCHANGED <<ctx, paused, st, scanning, envw, pendingIrq, exited, bad, startedT, registeredT, asked, snap, served>>
 
 Next == Publish \/ Retract \/ Dispatch \/ ScanBegin \/ ScanEnd \/ EnvBegin \/ EnvEnd \/ Pause \/ Resume
-        \/ Interrupt \/ Suspend \/ Raised \/ Exit \/ Started \/ Registered \/ StwEnd \/ Other
+        \/ Interrupt \/ Suspend \/ Raised \/ Exit \/ Started \/ Registered \/ StwBegin \/ StwEnd \/ Other
 Spec == Init /\ [][Next]_vars
 
 \* Safepoint.tla's properties on the logged projection
@@ -138,6 +154,7 @@ C15 == \A x \in bad : x[1] \notin {"C15a-retract-while-scanned", "C15a-runs-whil
                                    "C15a-scan-of-unpublished-thread", "C15a-write-to-unpublished-thread",
                                    "C15-unregistered-thread-runs-during-stop",
                                    "C15-access-to-thread-never-asked-to-stop",
+                                   "C15-thread-skipped-by-stop-the-world-operation",
                                    "C15-access-to-thread-registered-during-stop"}
 C17 == /\ \A x \in bad : x[1] # "C17-interrupt-overwritten"
        /\ \A t \in Thread : pendingIrq[t] => (paused[t] /\ st[t] = "Interrupted")
